@@ -604,6 +604,9 @@ pub fn core_structures(cfg: &CfgSpec) -> Vec<Structure> {
         vec![ps(1, PDenom::Native, PRecv::Staker, AckFailure), ps(2, PDenom::Lst, PRecv::Staker, TimedOut), ps(3, PDenom::Lst, PRecv::N1, AckFailure)],
         true,
     );
+    // S9: a single transfer still in flight / a single refundable one (forced recovery of the whole table)
+    add("onesent", vec![bs(St::Pending, &[], 0, 1)], vec![ps(9, PDenom::Native, PRecv::Staker, Sent)], true);
+    add("onefailed", vec![bs(St::Pending, &[0], 0, 0)], vec![ps(8, PDenom::Native, PRecv::Staker, TimedOut)], true);
     // S8: as S7 with the LST transfer first in sequence order
     add(
         "mixedstaker2",
